@@ -1,1 +1,2 @@
 import Tie.Flags
+import Tie.Excerpt
